@@ -5,8 +5,12 @@ PROPERTIES = {
         "verus": ["C06_width"],
         "kani_quick": ["k_c06_max_restrictive", "k_layout_sentinel_scalars"],
         "kani_thorough": [],
+        "bounded_native": [
+            {"unit": "b_c06_int_type_serial", "functions": "Integer::int_type (intermediate/types.rs): fold of Constraint::integer_constraints with IntegerType::max_restrictive over serially applied constraints",
+             "bound": "1..=2 serial range constraints with ends from {-129,-128,0,10,255,256,65535,70000}, each with/without inner and outer extension marker, non-empty intersection (exhaustive, 14160 cases)"},
+        ],
         "unverified": [
-            "Integer::int_type and the three other copies of `constraints.iter().fold(Unbounded, |acc,c| c.integer_constraints().max_restrictive(acc))` (iterator fold: 4 lines of glue between two proved callees; note that it picks the most restrictive type of a serial chain even when a later constraint is extensible)",
+            "Integer::int_type is covered only by the bounded stand-in b_c06_int_type_serial (known finding: most restrictive wins even when another serial constraint is extensible); the five other copies of the same fold in validator/linking/mod.rs and generator/rasn/utils.rs are not under contract",
             "tagging of literals with a width in link_with_type (validator/linking/mod.rs)",
             "literal rendering in generator/rasn/utils.rs (TokenStream)",
             "the input of the component path, i.e. the folded PER-visible range (fold_constraint_set; see C04)",
@@ -28,6 +32,8 @@ PROPERTIES.update({
         "bounded_native": [
             {"unit": "b_generate_constructed", "functions": "Backend::generate_module -> generate_tld -> generate_sequence_or_set / generate_choice -> format_sequence_or_set_members, format_choice_options, format_sequence_member, format_tag, join_annotations (generator/rasn: quote!/TokenStream code)",
              "bound": "IR built directly: module default {AUTOMATIC, IMPLICIT, EXPLICIT} x EXTENSIBILITY IMPLIED on/off x {SEQUENCE, SET, CHOICE} x 1..=3 BOOLEAN components (each OPTIONAL or not, tagged or not) x extension marker absent or at any index 0..=n, followed by a second module with its own extensibility default on the same backend (exhaustive product, 10248 cases); checks the generated token text"},
+            {"unit": "b_sequence_parser", "functions": "lexer::sequence::sequence -> sequence_component / extension_group (nom combinators)",
+             "bound": "0..=2 root components, optional marker, 0..=3 additions each a plain component or a [[ ]] group of 1..=2 components with/without version number (exhaustive, 471 cases); source text generated and parsed by the real parser"},
             {"unit": "b_c02_recursion_marking", "functions": "ToplevelDefinition::mark_recursive -> ASN1Type::mark_recursive / ASN1Type::recurses (validator/linking/mod.rs)",
              "bound": "2..=3 mutually referencing SEQUENCE/SET/CHOICE definitions with 1..=2 components (BOOLEAN, reference, SEQUENCE OF reference), marked in the validator's order; exhaustive prefix then seeded random sample up to the evaluation limit"},
         ],
@@ -42,6 +48,10 @@ PROPERTIES.update({
         "verus": ["C02_C05_assembly"],
         "kani_quick": ["k_c03_module_header_from"], "kani_thorough": [],
         "bounded_native": [
+            {"unit": "b_generate_enumerated", "functions": "Backend::generate_module -> generate_enumerated -> format_enum_members (generator/rasn)",
+             "bound": "1..=4 enumerals drawn from {alpha, with-hyphen, move, type, b2, loop} with positive/negative numbers, extension marker absent or at any index (exhaustive, 108 cases); checks the generated token text"},
+            {"unit": "b_sequence_parser", "functions": "lexer::sequence::sequence -> sequence_component / extension_group (nom combinators)",
+             "bound": "0..=2 root components, optional marker, 0..=3 additions each a plain component or a [[ ]] group of 1..=2 components with/without version number (exhaustive, 471 cases); source text generated and parsed by the real parser"},
             {"unit": "b_generate_constructed", "functions": "Backend::generate_module -> generate_tld -> generate_sequence_or_set / generate_choice -> format_sequence_or_set_members, format_choice_options, format_sequence_member, format_tag, join_annotations (generator/rasn: quote!/TokenStream code)",
              "bound": "IR built directly: module default {AUTOMATIC, IMPLICIT, EXPLICIT} x EXTENSIBILITY IMPLIED on/off x {SEQUENCE, SET, CHOICE} x 1..=3 BOOLEAN components (each OPTIONAL or not, tagged or not) x extension marker absent or at any index 0..=n, followed by a second module with its own extensibility default on the same backend (exhaustive product, 10248 cases); checks the generated token text"},
         ],
@@ -55,6 +65,8 @@ PROPERTIES.update({
         "verus": ["C14_numbering"],
         "kani_quick": [], "kani_thorough": [],
         "bounded_native": [
+            {"unit": "b_generate_enumerated", "functions": "Backend::generate_module -> generate_enumerated -> format_enum_members (generator/rasn)",
+             "bound": "1..=4 enumerals drawn from {alpha, with-hyphen, move, type, b2, loop} with positive/negative numbers, extension marker absent or at any index (exhaustive, 108 cases); checks the generated token text"},
             {"unit": "b_c14_enumerated_parser", "functions": "lexer::enumerated::enumerated / enumerated_body / enumeration_items (nom glue around assign_enumeral_numbers)",
              "bound": "1..=3 root items and 0..=2 additions, each identifier-only or numbered from {-1,0,1,2,5}, with/without extension marker (exhaustive product); source text generated, parsed by the real parser and compared with assign_enumeral_numbers on the written numbers"},
         ],
@@ -93,6 +105,8 @@ PROPERTIES.update({
         "bounded_native": [
             {"unit": "b_c04_component_bounds", "functions": "Rasn::format_member_or_option -> constraints_and_type_name, format_range_annotations (generator/rasn/utils.rs), via Backend::generate_module",
              "bound": "one component typed INTEGER or by a type reference, in SEQUENCE and CHOICE, range ends {-5,0,3,MIN} x {5,MAX}, with/without extension marker (exhaustive, 56 cases); checks the emitted value(..) annotation"},
+            {"unit": "b_c04_named_number_lookup", "functions": "find_tld_or_enum_value_by_name (validator/linking/utils.rs) -> ToplevelDefinition::get_distinguished_or_enum_value",
+             "bound": "2..=3 INTEGER / ENUMERATED definitions that may declare the same identifier with different numbers, every choice of governing type (exhaustive, 224 cases)"},
             {"unit": "b_c04_value_references", "functions": "ToplevelDefinition::has_constraint_reference -> ASN1Type::contains_constraint_reference -> Constraint/ElementOrSetOperation/SubtypeElements::has_cross_reference, and ToplevelDefinition::link_constraint_reference (validator/linking)",
              "bound": "single value or range with each end literal / value reference / MIN-MAX, as INTEGER type assignment, inside SIZE(..) of OCTET STRING, as SEQUENCE component and in a union (exhaustive, 60 cases); run exactly as Validator::validate does"},
             {"unit": "b_c04_integer_set_expression", "functions": "TryFrom<&Constraint> for PerVisibleRangeConstraints -> fold_constraint_set, intersect_single_and_range, union_single_and_range, compare_optional_asn1values / union_optional_asn1values (per_visible.rs)",
@@ -110,6 +124,8 @@ PROPERTIES.update({
         "kani_quick": ["k_c07_hex_to_bools", "k_c07_octet_to_bits", "k_c07_bits_to_octets", "k_c07_well_known", "k_c07_unknown_arc_names"],
         "kani_thorough": ["k_c07_long_bits_to_octets"],
         "bounded_native": [
+            {"unit": "b_c07_struct_value_defaults", "functions": "ASN1Value::link_with_type (SequenceOrSet arm) -> link_struct_like (validator/linking/mod.rs)",
+             "bound": "SEQUENCE of 1..=3 BOOLEAN components, each with/without DEFAULT, each written or omitted in the value, written in source or reverse order (exhaustive, 78 cases)"},
             {"unit": "b_c07_named_bits", "functions": "ASN1Value::link_with_type (BitStringNamedBits arm) -> bit_string_value_from_named_bits (validator/linking/mod.rs)",
              "bound": "1..=3 named bits with distinct numbers from 0..=5 (any declaration order) x every subset of names listed in the value (exhaustive product)"},
         ],
